@@ -589,6 +589,7 @@ impl<'a> Report<'a> {
                             failure_persistence: None,
                             rng_seed: RngSeed::Fixed(mix(base, w as u64)),
                             max_shrink_iters: 4000,
+                            max_shrink_time: 90_000,
                             max_global_rejects: 1_000_000,
                             verbose: 0,
                             ..Config::default()
